@@ -1,38 +1,315 @@
-import DimodModel.BqmFile
+import DimodModel.JsonString
+
+/-! Line-protocol driver of the file-format models (C09 / C10).  One operation per line:
+
+    mkhdr   <prefixHex> <maj> <min> <textHex>                      -> hex
+    section <magicHex> <nlb> <dataHex>                             -> hex
+    rdhdr   <prefixHex> <textHex> <bytesHex>                       -> ok <v0,v1> rest=<n> | err c
+    rdsect  <magicHex> <nlb> <bytesHex>                            -> ok <dataHex> rest=<n> | err c
+    encbqm  <maj> <hdrText> <H> <off> <lin> <low> <varsText>       -> hex
+    decbqm  <mode> <hdrText> <H> <varsText> <nlabels> <bytes>      -> canonical | classes
+    encqm   <hdrText> <H> <vi> <off> <lin> <low> <varsText>        -> hex
+    decqm   <mode> <hdrText> <H> <varsText> <nlabels> <bytes>      -> canonical | classes
+    encexpr <hdrText> <isz> <expr>                                 -> hex
+    decexpr <mode> <hdrText> <H> <bytes>                           -> canonical | classes
+    raw     <which> <guard> <a> <b> <n> <buffHex>                  -> ok <k> | err c | ub
+    labeltext <fixed> <label>                                      -> hex of the JSON text
+    roundlabel <label>                                             -> label (serialize, deserialize)
+    matchpath <hex>                                                -> hex | -
+    loadsstr  <hex of a JSON string literal>                       -> hex of the string | none
+    enccqm  <isz> <vi> <labelsText> <objHdrText> <objExpr> <constraints>   -> members
+    deccqm  <dsz> <counts> <oracle> <dirs> <members>               -> canonical
+    deccqmhdr <hdrText> <bytes>                                    -> classes (header exact, archive by contract)
+    encdqm  <hdrText> <labelled> <npz> <varsText>                  -> hex
+    decdqm  <mode> <hdrText> <labelled> <varsText> <nlabels> <npzlen> <nvars> <bytes> -> canonical | classes
+
+  `mode` = full (decode the bytes) | all (outcome class of every prefix, then the prefixes on which
+  the *unguarded* raw loaders would read out of bounds).  Hex of the empty string is `-`. -/
+
+open FileFmt
 
 def hexVal (c : Char) : Nat :=
   if c.isDigit then c.toNat - '0'.toNat else c.toNat - 'a'.toNat + 10
 
-def parseHex (s : String) : Bytes :=
-  let rec go : List Char → Bytes
-    | a :: b :: t => (UInt8.ofNat (hexVal a * 16 + hexVal b)) :: go t
-    | _ => []
-  go s.toList
+def hexBytes : List Char → Bytes
+  | a :: b :: t => (UInt8.ofNat (hexVal a * 16 + hexVal b)) :: hexBytes t
+  | _ => []
 
-def classOf (full : Except FErr (Decoded × Bytes)) (r : Except FErr (Decoded × Bytes)) : String :=
+def unhex (s : String) : Bytes := if s = "-" then [] else hexBytes s.toList
+
+def hexD (n : Nat) : Char := if n < 10 then Char.ofNat (48 + n) else Char.ofNat (87 + n)
+
+def toHex (b : Bytes) : String :=
+  if b.isEmpty then "-" else String.ofList (b.flatMap fun x => [hexD (x.toNat / 16), hexD (x.toNat % 16)])
+
+def charsToHex (cs : List Char) : String := toHex (String.ofList cs).toUTF8.toList
+
+def hexToChars (s : String) : List Char :=
+  match String.fromUTF8? (ByteArray.mk (unhex s).toArray) with
+  | some t => t.toList
+  | none => ['?']
+
+def splitList (s : String) (sep : String) : List String := if s = "-" then [] else s.splitOn sep
+
+/-- H = nvars,ninter,dsize,isize,nsize,vartype,vars   (vars: T | F | L<k>) -/
+def parseH (s : String) : QHeader Nat :=
+  match s.splitOn "," with
+  | [a, b, c, d, e, f, g] =>
+    let vars : VarsField Nat :=
+      if g = "T" then .flag true else if g = "F" then .flag false
+      else .labels (List.range (g.drop 1).toString.toNat!)
+    { nvars := a.toNat!, ninter := b.toNat!, dsize := c.toNat!, isize := d.toNat!, nsize := e.toNat!,
+      vartype := f.toNat!, vars := vars }
+  | _ => { nvars := 0, ninter := 0, dsize := 8, isize := 4, nsize := 4, vartype := 0, vars := .flag false }
+
+/-- rows `r<idx>:<hex>,<idx>:<hex>` joined by ';' -/
+def parseRow (s : String) : List (Nat × Bytes) :=
+  let body := (s.drop 1).toString
+  if body.isEmpty then [] else
+  body.splitOn "," |>.map fun e => match e.splitOn ":" with
+    | [i, h] => (i.toNat!, unhex h)
+    | _ => (0, [])
+
+def parseLower (s : String) : List (List (Nat × Bytes)) := (splitList s ";").map parseRow
+
+def showRow (r : List (Nat × Bytes)) : String :=
+  "r" ++ String.intercalate "," (r.map fun p => s!"{p.1}:{toHex p.2}")
+
+def showLower (l : List (List (Nat × Bytes))) : String :=
+  if l.isEmpty then "-" else String.intercalate ";" (l.map showRow)
+
+def showBytesList (l : List Bytes) : String := if l.isEmpty then "-" else String.intercalate "," (l.map toHex)
+
+def parseBytesList (s : String) : List Bytes := (splitList s ",").map unhex
+
+def parseVarInfo (s : String) : VarInfo :=
+  (splitList s ",").map fun e => match e.splitOn ":" with
+    | [t, l, u] => (UInt8.ofNat t.toNat!, unhex l, unhex u)
+    | _ => (0, [], [])
+
+def showVarInfo (v : VarInfo) : String :=
+  if v.isEmpty then "-" else String.intercalate "," (v.map fun t => s!"{t.1.toNat}:{toHex t.2.1}:{toHex t.2.2}")
+
+def showContent (c : QContent) : String :=
+  s!"off={toHex c.offset} lin={showBytesList c.linear} low={showLower c.lower}"
+
+def showLabels : Option (List Nat) → String
+  | none => "none"
+  | some l => toString l.length
+
+def errStr {α : Type} (r : Res α) (okf : α → String) : String :=
   match r with
-  | .error .value => "err value"
-  | .error .structErr => "err struct"
-  | .error .json => "err json"
-  | .error .index => "err index"
+  | .ok a => "ok " ++ okf a
+  | .err e => "err " ++ e.name
+  | .ub => "ub"
+
+/-- outcome class of a prefix relative to the full decode: `=` same value, `!` different value -/
+def classOf {α β : Type} [DecidableEq β] (key : α → β) (full : Res (α × Bytes)) (r : Res (α × Bytes)) : String :=
+  match r with
+  | .err e => "e:" ++ e.name
+  | .ub => "ub"
   | .ok (d, _) => match full with
-    | .ok (d0, _) => if d = d0 then "ok equal" else "ok DIFFERENT"
-    | _ => "ok ?"
+    | .ok (d0, _) => if key d = key d0 then "=" else "!"
+    | _ => "?"
+
+def allPrefixes {α β : Type} [DecidableEq β] (key : α → β) (p pUnguarded : Prog α) (bytes : Bytes) : String :=
+  let full := p.run bytes
+  let ks := List.range (bytes.length + 1)
+  let cls := ks.map fun k => classOf key full (p.run (bytes.take k))
+  let ubs := ks.filter fun k => (pUnguarded.run (bytes.take k)).isUb
+  String.intercalate ";" cls ++ " U:" ++ (if ubs.isEmpty then "-" else String.intercalate "," (ubs.map toString))
+
+/-! labels -/
+
+def splitTop (cs : List Char) : List (List Char) :=
+  let rec go (cs : List Char) (depth : Nat) (cur : List Char) (acc : List (List Char)) : List (List Char) :=
+    match cs with
+    | [] => (cur.reverse :: acc).reverse
+    | c :: t =>
+      if c = '[' then go t (depth + 1) (c :: cur) acc
+      else if c = ']' then go t (depth - 1) (c :: cur) acc
+      else if c = '+' && depth = 0 then go t depth [] (cur.reverse :: acc)
+      else go t depth (c :: cur) acc
+  go cs 0 [] []
+
+instance : Inhabited FLabel := ⟨.int 0⟩
+
+partial def parseFLabel (cs : List Char) : FLabel :=
+  match cs with
+  | 'i' :: ':' :: t => .int ((String.ofList t).toInt?.getD 0)
+  | 'f' :: ':' :: t => .flt (String.ofList (hexToChars (String.ofList t)))
+  | 's' :: ':' :: t => .str (String.ofList (hexToChars (String.ofList t)))
+  | 't' :: ':' :: '[' :: t =>
+    let inner := t.dropLast
+    if inner.isEmpty then .tup [] else .tup ((splitTop inner).map parseFLabel)
+  | _ => .str "?"
+
+partial def showFLabel : FLabel → String
+  | .int z => s!"i:{z}"
+  | .flt r => "f:" ++ charsToHex r.toList
+  | .str s => "s:" ++ charsToHex s.toList
+  | .tup l => "t:[" ++ String.intercalate "+" (l.map showFLabel) ++ "]"
+
+/-! expressions -/
+
+/-- expr = idx|off|lin|quad with idx = n,n  lin = hex,hex  quad = u:v:hex,... -/
+def parseExpr (s : String) : ExprContent :=
+  match s.splitOn "|" with
+  | [i, o, l, q] =>
+    { indices := (splitList i ",").map String.toNat!, offset := unhex o, linear := parseBytesList l,
+      quad := (splitList q ",").map fun e => match e.splitOn ":" with
+        | [u, v, h] => (u.toNat!, v.toNat!, unhex h)
+        | _ => (0, 0, []) }
+  | _ => { indices := [], offset := [], linear := [], quad := [] }
+
+def showNats (l : List Nat) : String := if l.isEmpty then "-" else String.intercalate "," (l.map toString)
+
+def showExpr (e : ExprContent) : String :=
+  showNats e.indices ++ "|" ++ toHex e.offset ++ "|" ++ showBytesList e.linear ++ "|" ++
+  (if e.quad.isEmpty then "-" else String.intercalate "," (e.quad.map fun t => s!"{t.1}:{t.2.1}:{toHex t.2.2}"))
+
+/-- the JSON oracle over a table of known texts -/
+def oracleTable {α : Type} (tbl : List (Bytes × α)) (b : Bytes) : Option α :=
+  match tbl.find? (fun e => (oracleParse e.1 () b).isSome) with
+  | some e => some e.2
+  | none => none
+
+def parseOracle (s : String) : List (Bytes × QHeader Nat) :=
+  (splitList s ";").map fun e => match e.splitOn "=" with
+    | [t, h] => (unhex t, parseH h)
+    | _ => ([], parseH "")
+
+def parseConstraint (s : String) : CqmConstraint × FLabel :=
+  match s.splitOn "~" with
+  | [lab, ht, ex, rhs, sense, disc, soft] =>
+    let l := parseFLabel lab.toList
+    ({ lstr := labelText true l, lhsHdrText := unhex ht, lhs := parseExpr ex, rhs := unhex rhs, sense := unhex sense,
+       discrete := disc = "1",
+       soft := if soft = "-" then none else match soft.splitOn ":" with
+         | [w, p] => some (unhex w, unhex p)
+         | _ => none }, l)
+  | _ => ({ lstr := [], lhsHdrText := [], lhs := parseExpr "", rhs := [], sense := [], discrete := false, soft := none }, .int 0)
+
+def showMembers (a : Archive) : String :=
+  if a.isEmpty then "-" else String.intercalate "," (a.map fun m => charsToHex m.1 ++ "=" ++ toHex m.2)
+
+def parseMembers (s : String) : Archive :=
+  (splitList s ",").map fun e => match e.splitOn "=" with
+    | [n, d] => (hexToChars n, unhex d)
+    | _ => ([], [])
+
+def showConstraint (c : CqmConstraint) : String :=
+  charsToHex c.lstr ++ "~" ++ showExpr c.lhs ++ "~" ++ toHex c.rhs ++ "~" ++ toHex c.sense ++ "~" ++
+  (if c.discrete then "1" else "0") ++ "~" ++
+  (match c.soft with | some (w, p) => toHex w ++ ":" ++ toHex p | none => "-")
+
+def showCqm (m : CqmContent) : String :=
+  "vi=" ++ showVarInfo m.varinfo ++ " labels=" ++ (match m.labelsText with | some t => toHex t | none => "none") ++
+  " obj=" ++ showExpr m.objective ++ " cons=" ++
+  (if m.constraints.isEmpty then "-" else String.intercalate "^" (m.constraints.map showConstraint))
+
+def parseCounts (s : String) : CqmCounts :=
+  match (s.splitOn ",").map String.toNat! with
+  | [a, b, c, d, e, f, g] => { numVariables := a, numConstraints := b, numBiases := c, numQuadVars := d,
+                                numQuadVarsReal := e, numLinearReal := f, numWeighted := g }
+  | _ => { numVariables := 0, numConstraints := 0, numBiases := 0, numQuadVars := 0, numQuadVarsReal := 0,
+           numLinearReal := 0, numWeighted := 0 }
+
+def qmKey (d : QmLoaded Nat) : VarInfo × QContent × Option (List Nat) := (d.varinfo, d.content, d.labels)
+def bqmKey (d : QLoaded Nat) : QContent × Option (List Nat) := (d.content, d.labels)
+
+def handle (toks : List String) : String :=
+  match toks with
+  | ["mkhdr", pre, maj, min, text] =>
+    toHex (makeHeader (unhex pre) (UInt8.ofNat maj.toNat!) (UInt8.ofNat min.toNat!) (unhex text))
+  | ["section", mg, nlb, data] => toHex (sectionDumps (unhex mg) nlb.toNat! (unhex data))
+  | ["rdhdr", pre, text, bytes] =>
+    errStr ((readHeader (unhex pre) (oracleParse (unhex text) ())).run (unhex bytes))
+      fun (r : (List Nat × Unit) × Bytes) => String.intercalate "," (r.1.1.map toString) ++ s!" rest={r.2.length}"
+  | ["rdsect", mg, nlb, bytes] =>
+    errStr ((sectionLoad (unhex mg) nlb.toNat!).run (unhex bytes)) fun r => toHex r.1 ++ s!" rest={r.2.length}"
+  | ["encbqm", maj, ht, h, off, lin, low, vt] =>
+    let c : QContent := { offset := unhex off, linear := parseBytesList lin, lower := parseLower low }
+    toHex (bqmEncode (UInt8.ofNat maj.toNat!) (unhex ht) (parseH h) c (unhex vt))
+  | ["decbqm", mode, ht, h, vt, nl, bytes] =>
+    let p := bqmDecode (oracleParse (unhex ht) (parseH h)) (oracleParse (unhex vt) (List.range nl.toNat!))
+    if mode = "full" then
+      errStr (p.run (unhex bytes)) fun r => showContent r.1.content ++ " labels=" ++ showLabels r.1.labels ++ s!" rest={r.2.length}"
+    else allPrefixes bqmKey p p (unhex bytes)
+  | ["encqm", ht, h, vi, off, lin, low, vt] =>
+    let c : QContent := { offset := unhex off, linear := parseBytesList lin, lower := parseLower low }
+    toHex (qmEncode (unhex ht) (parseH h) (parseVarInfo vi) c (unhex vt))
+  | ["decqm", mode, ht, h, vt, nl, bytes] =>
+    let p (g : Bool) := qmDecode g (oracleParse (unhex ht) (parseH h)) (oracleParse (unhex vt) (List.range nl.toNat!))
+    if mode = "full" then
+      errStr ((p true).run (unhex bytes)) fun r =>
+        "vi=" ++ showVarInfo r.1.varinfo ++ " " ++ showContent r.1.content ++ " labels=" ++ showLabels r.1.labels ++ s!" rest={r.2.length}"
+    else allPrefixes qmKey (p true) (p false) (unhex bytes)
+  | ["encexpr", ht, isz, ex] => toHex (exprEncode (unhex ht) isz.toNat! (parseExpr ex))
+  | ["decexpr", mode, ht, h, bytes] =>
+    let p (g : Bool) := exprDecode g (oracleParse (unhex ht) (parseH h))
+    if mode = "full" then errStr ((p true).run (unhex bytes)) fun r => showExpr r.1.2 ++ s!" rest={r.2.length}"
+    else allPrefixes (fun (r : QHeader Nat × ExprContent) => r.2) (p true) (p false) (unhex bytes)
+  | ["raw", which, guard, a, b, n, buff] =>
+    let g := guard = "1"
+    let bs := unhex buff
+    if which = "vartypes" then errStr (ivartypesLoad g a.toNat! bs n.toNat!) fun r => toString r.length
+    else if which = "records" then errStr (rawRecords g a.toNat! bs n.toNat!) fun r => toString r.length
+    else if which = "linear" then
+      errStr ((linbLoads a.toNat! n.toNat! bs).bind fun arr => ilinearLoad g b.toNat! arr n.toNat!) fun r => toString r.length
+    else "bad-op"
+  | ["labeltext", fixed, l] => charsToHex (labelText (fixed = "1") (parseFLabel l.toList))
+  | ["roundlabel", l] => showFLabel (deserializeLabel (serializeLabel (parseFLabel l.toList)))
+  | ["loadsstr", h] => match loadsStr (hexToChars h) with
+    | some cs => charsToHex cs
+    | none => "none"
+  | ["matchpath", h] => match matchConstraint (hexToChars h) with
+    | some g => charsToHex g
+    | none => "none"
+  | ["enccqm", isz, vi, lt, oht, oex, cons] =>
+    let cs := (splitList cons "^").map fun s => (parseConstraint s).1
+    let m : CqmContent := { varinfo := parseVarInfo vi, labelsText := if lt = "none" then none else some (unhex lt),
+                            objHdrText := unhex oht, objective := parseExpr oex, constraints := cs }
+    showMembers (cqmMembers isz.toNat! m)
+  | ["deccqm", dsz, counts, oracle, dirs, members] =>
+    let tbl := parseOracle oracle
+    let okd := (splitList dirs ",").filterMap fun e => match e.splitOn ":" with
+      | [d, "1"] => some (hexToChars d)
+      | _ => none
+    let a := parseMembers members
+    "dirs=" ++ (let ds := constraintDirs a; if ds.isEmpty then "-" else String.intercalate "," (ds.map charsToHex)) ++ " " ++
+    errStr (cqmDecodeChecked true dsz.toNat! (parseCounts counts) (oracleTable tbl) (fun d => okd.contains d) a) showCqm
+  | ["encdqm", ht, labelled, npz, vt] => toHex (dqmEncode (unhex ht) (labelled = "1") (unhex npz) (unhex vt))
+  | ["decdqm", mode, ht, labelled, vt, nl, npzlen, nvars, bytes] =>
+    let p := dqmDecode (oracleParse (unhex ht) (labelled = "1", ())) (oracleParse (unhex vt) (List.range nl.toNat!))
+      (fun blob => if blob.length = npzlen.toNat! then some blob else none) (fun _ => nvars.toNat!)
+    if mode = "full" then
+      errStr (p.run (unhex bytes)) fun r => "npz=" ++ toString r.1.2.1.length ++ " labels=" ++ showLabels r.1.2.2 ++ s!" rest={r.2.length}"
+    else allPrefixes (fun (r : Unit × Bytes × Option (List Nat)) => (r.2.1, r.2.2)) p p (unhex bytes)
+  | ["deccqmhdr", ht, bytes] =>
+    -- CQM: the header reader, then the zip contract: only the complete archive opens
+    let bs := unhex bytes
+    let full := containerLoad cqmPrefix (oracleParse (unhex ht) ()) cqmVerOk (fun _ => some ()) bs
+    let body : Bytes := match (readHeader cqmPrefix (oracleParse (unhex ht) ())).run bs with
+      | .ok (_, rest) => rest
+      | _ => []
+    let cls := (List.range (bs.length + 1)).map fun k =>
+      match containerLoad cqmPrefix (oracleParse (unhex ht) ()) cqmVerOk (fun b => if b = body then some () else none) (bs.take k) with
+      | .err e => "e:" ++ e.name
+      | .ub => "ub"
+      | .ok _ => if full.isOk then "=" else "?"
+    String.intercalate ";" cls ++ " U:-"
+  | _ => "bad-op"
 
 def main : IO Unit := do
   let h ← IO.getStdin
+  let out ← IO.getStdout
   let rec loop : Nat → IO Unit
     | 0 => pure ()
-    | fuel+1 => do
+    | fuel + 1 => do
       let line ← h.getLine
       if line.isEmpty then return ()
-      match line.trimAscii.toString.splitOn " " with
-      | ["file", hex, nv, ni, ds, hv, jl, vjl] =>
-        let bytes := parseHex hex
-        let hdr : Header := { nvars := nv.toNat!, ninter := ni.toNat!, dsize := ds.toNat!, hasVars := hv = "1", jsonLen := jl.toNat! }
-        let full := decode hdr vjl.toNat! bytes
-        let outs := (List.range (bytes.length + 1)).map fun k => classOf full (decode hdr vjl.toNat! (bytes.take k))
-        IO.println (String.intercalate ";" outs)
-      | _ => IO.println "bad-op"
+      out.putStrLn (handle (line.trimAscii.toString.splitOn " "))
       loop fuel
-  loop 1000000
+  loop 100000000
+  out.flush
